@@ -262,6 +262,7 @@ func (ps *protoSpec) specSign(eWant, priv *pt) {
 				}
 			}
 			ps.need("SIGN-REDRAW", ok, "a rejected candidate does not lead to a new full 32-byte draw")
+			ps.need("SIGN-ROUNDS-INDEPENDENT", len(o.st.iterDirty) == 0, "a rejected round changes a value that was computed before the retry loop and is used again by the next round: %s", strings.Join(firstN(o.st.iterDirty, 2), "; "))
 			// a candidate is rejected only for one of the standard's reasons: k outside [1, n-1], r = 0, r + k = n, s = 0
 			if kd := lastDraw(o); kd != nil && kd.k == 32 {
 				k := pVal(kd)
@@ -270,9 +271,16 @@ func (ps *protoSpec) specSign(eWant, priv *pt) {
 				rkPoly := polyOf(pAdd(pAdd(pVal(eWant), x1), k))
 				Rt := pOp("mod", pAdd(pVal(eWant), x1))
 				why := ps.prove(o, k, token.LEQ, pC(0)) || ps.prove(o, k, token.GEQ, pSym("N")) || ps.prove(o, pAdd(Rt, k), token.EQL, pSym("N"))
+				// the scalar decoder refused the 32-byte candidate: k >= n (its contract, DECODE-EXACT)
+				if ps.hasPred(o, "canonicalscalar("+kd.String()+")", false) {
+					why = true
+				}
 				for _, f := range o.st.pfacts {
-					if why || f.a == nil {
+					if why {
 						break
+					}
+					if f.a == nil {
+						continue
 					}
 					for _, pr := range [][2]*pt{{f.a, f.b}, {f.b, f.a}} {
 						m, z := ps.d.normInt(o.st, pr[0]), pr[1]
@@ -355,17 +363,18 @@ func (ps *protoSpec) specSign(eWant, priv *pt) {
 		ps.need("SIGN-S-NONZERO", ps.prove(o, Sn, token.GEQ, pC(1)), "s != 0 does not follow from the guards of a returning path")
 	}
 	ps.flush(map[string]string{
-		"SIGN-REDRAW":        "every rejected candidate restarts the loop after a full 32-byte draw",
-		"SIGN-REDRAW-ONLY":   "a candidate is rejected only when k = 0, k >= n, r = 0, r + k = n or s = 0",
-		"SIGN-ERROR-RESULTS": "every error outcome returns nil for r and s",
-		"SIGN-KEY-RANGE":     "a signature is returned only for 1 <= d <= n-2",
-		"SIGN-NONCE":         "k is the last 32-byte draw and 1 <= k <= n-1",
-		"SIGN-WIDTH":         "r and s are 32-byte big-endian encodings",
-		"SIGN-R":             "r = (e + x([k]G)) mod n",
-		"SIGN-R-NONZERO":     "r != 0",
-		"SIGN-RK":            "r + k != n",
-		"SIGN-S":             "s = ((1+d)^-1 (k - r d)) mod n",
-		"SIGN-S-NONZERO":     "s != 0",
+		"SIGN-REDRAW":             "every rejected candidate restarts the loop after a full 32-byte draw",
+		"SIGN-ROUNDS-INDEPENDENT": "a rejected round leaves every value that was computed before the retry loop unchanged (the next round signs the same digest with the same key)",
+		"SIGN-REDRAW-ONLY":        "a candidate is rejected only when k = 0, k >= n, r = 0, r + k = n or s = 0",
+		"SIGN-ERROR-RESULTS":      "every error outcome returns nil for r and s",
+		"SIGN-KEY-RANGE":          "a signature is returned only for 1 <= d <= n-2",
+		"SIGN-NONCE":              "k is the last 32-byte draw and 1 <= k <= n-1",
+		"SIGN-WIDTH":              "r and s are 32-byte big-endian encodings",
+		"SIGN-R":                  "r = (e + x([k]G)) mod n",
+		"SIGN-R-NONZERO":          "r != 0",
+		"SIGN-RK":                 "r + k != n",
+		"SIGN-S":                  "s = ((1+d)^-1 (k - r d)) mod n",
+		"SIGN-S-NONZERO":          "s != 0",
 	})
 }
 
@@ -445,6 +454,7 @@ func (ps *protoSpec) specGenerateKey() {
 				}
 			}
 			ps.need("KEYGEN-REDRAW", ok, "a rejected candidate does not lead to a new full 32-byte draw")
+			ps.need("KEYGEN-ROUNDS-INDEPENDENT", len(o.st.iterDirty) == 0, "a rejected round changes a value that was computed before the retry loop: %s", strings.Join(firstN(o.st.iterDirty, 2), "; "))
 			if kd := lastDraw(o); kd != nil && kd.k == 32 {
 				dd := pVal(kd)
 				ps.need("KEYGEN-REDRAW-ONLY", ps.prove(o, dd, token.LEQ, pC(0)) || ps.prove(o, dd, token.GEQ, pAdd(pSym("N"), pC(-1))), "a candidate is redrawn on a path that establishes neither d = 0 nor d >= n-1: a valid key is skipped")
@@ -468,13 +478,14 @@ func (ps *protoSpec) specGenerateKey() {
 		ps.need("KEYGEN-PUBLIC", ps.coordsOf(o, o.vals[1], o.vals[2], pVal(kd)), "the returned coordinates are not the 32-byte encodings of the affine coordinates of [d]G (%s, %s)", ps.d.show(o.st, o.vals[1]), ps.d.show(o.st, o.vals[2]))
 	}
 	ps.flush(map[string]string{
-		"KEYGEN-REDRAW":        "every rejected candidate restarts the loop after a full 32-byte draw",
-		"KEYGEN-REDRAW-ONLY":   "a candidate is redrawn only when it is 0 or at least n-1",
-		"KEYGEN-ERROR-RESULTS": "every error outcome returns nil coordinates",
-		"KEYGEN-SOURCE":        "no key is produced from a nil source",
-		"KEYGEN-DRAW":          "the private key is the last full 32-byte draw",
-		"KEYGEN-RANGE":         "the private key satisfies 1 <= d <= n-2",
-		"KEYGEN-PUBLIC":        "the public key is the affine ([d]G) in 32-byte big-endian coordinates",
+		"KEYGEN-REDRAW":             "every rejected candidate restarts the loop after a full 32-byte draw",
+		"KEYGEN-ROUNDS-INDEPENDENT": "a rejected round leaves every value that was computed before the retry loop unchanged",
+		"KEYGEN-REDRAW-ONLY":        "a candidate is redrawn only when it is 0 or at least n-1",
+		"KEYGEN-ERROR-RESULTS":      "every error outcome returns nil coordinates",
+		"KEYGEN-SOURCE":             "no key is produced from a nil source",
+		"KEYGEN-DRAW":               "the private key is the last full 32-byte draw",
+		"KEYGEN-RANGE":              "the private key satisfies 1 <= d <= n-2",
+		"KEYGEN-PUBLIC":             "the public key is the affine ([d]G) in 32-byte big-endian coordinates",
 	})
 }
 
